@@ -92,6 +92,25 @@ func HasEqualMethod(tt types.Type) bool {
 	return false
 }
 
+// TypedPair returns the types of two arguments that are compared with each other:
+// an untyped constant takes the type of the other argument when it is assignable to it, as it does where the call is type checked.
+func TypedPair(typs []types.Type) []types.Type {
+	if len(typs) != 2 {
+		return typs
+	}
+	untyped := func(typ types.Type) bool {
+		b, isBasic := typ.(*types.Basic)
+		return isBasic && b.Info()&types.IsUntyped != 0
+	}
+	if untyped(typs[1]) && !untyped(typs[0]) && types.AssignableTo(typs[1], typs[0]) {
+		return []types.Type{typs[0], typs[0]}
+	}
+	if untyped(typs[0]) && !untyped(typs[1]) && types.AssignableTo(typs[0], typs[1]) {
+		return []types.Type{typs[1], typs[1]}
+	}
+	return typs
+}
+
 func IsComparable(tt types.Type) bool {
 	t := tt.Underlying()
 	switch typ := t.(type) {
